@@ -69,6 +69,15 @@ def gen_case(rng):
         tag = "{" + rng.choice(["a", "b1", "w"]) + "".join(hostile_char(rng) for _ in range(rng.range(1, 3))).replace("\n", "").replace("\r", "").replace('"', "") + "}"
         rows = gen.box(len(tag) + 4, 1, corners=rng.choice(["++++", "..''"]), inner=[" " + tag]).split("\n") + rows
     text = "\n".join(rows)
+    if rng.chance(1, 8):
+        # a tagged shape whose legend declaration holds quotes and markup, with no expectation on the style sheet: the
+        # oracle then also renders it with the style sheet switched off (whatever is done with the declaration then —
+        # dropped, inlined as an attribute — the document has to stay well-formed)
+        name = rng.choice(["a", "b_1", "Zq"])
+        decl = rng.choice(['font-family: "Fira Code"; fill: #eee', "x:\" onload=\"alert(1)", "fill:'red'", 'a:"<&>"',
+                           "".join(hostile_char(rng) for _ in range(rng.range(1, 10))).replace("{", "").replace("}", "") + '"'])
+        shape = gen.box(len(name) + 6, 1, corners=rng.choice(["++++", "..''"]), inner=[" {" + name + "}"])
+        return shape + "\n" + text + "\n# Legend:\n%s = {%s}\n" % (name, decl), exp
     if rng.chance(1, 3):
         name = rng.choice(["a", "b_1", "Zq"])
         decl = "".join(hostile_char(rng) for _ in range(rng.range(0, 12))).replace("{", "").replace("}", "")
